@@ -344,22 +344,29 @@ ARITH_THEOREMS = {"C08": ["Ru.Gen_blocksRange_spec", "Ru.C08_blocks_gen_eq_page"
                           "Ru.C04_verifyTxs_window_gen"],
                   "C06": ["Ru.Gen_updateGuards_spec", "Ru.C06_isFork_gen", "Ru.C06_majority_gen", "Ru.C06_longest_gen", "Ru.C06_minmax_gen",
                           "Ru.C06_isDifferent_gen"],
+                  "C07": ["Ru.Gen_updateUtxosGuards_spec", "Ru.C07_creates_gen", "Ru.C07_slotLive_gen", "Ru.C07_owner_list_gen"],
+                  "C02": ["Ru.Gen_updateUtxosGuards_spec", "Ru.C02_index_bound_gen", "Ru.C07_slotLive_gen"],
                   "C11": ["Ru.Gen_addTransactionGuards_spec", "Ru.C11_admitCheck_gen", "Ru.Gen_validateGuards_spec",
                           "Ru.C11_produce_refusals_gen", "Ru.C11_produceLoop_window_gen"]}
 ARITH_MODULE = {"C08": ["Core.Props.C08gen"], "C14": ["Core.Props.C08gen"], "C01": ["Core.Props.C01gen", "Core.Props.Cguards"],
-                "C04": ["Core.Props.Cguards"], "C11": ["Core.Props.Cguards11"], "C06": ["Core.Props.C06guards"]}
+                "C04": ["Core.Props.Cguards"], "C11": ["Core.Props.Cguards11"], "C06": ["Core.Props.C06guards"],
+                "C07": ["Core.Props.C07guards"], "C02": ["Core.Props.C07guards"]}
 # the translation units (sections of ruextract-arith) each property's theorems are about: an untranslatable construct in
 # another unit does not concern the property
 ARITH_SECTIONS = {"C08": ["blocks"], "C14": ["blocks"], "C01": ["fee", "guards:verifyBlock"], "C04": ["guards:AddBlock", "guards:verifyBlock"],
-                  "C11": ["guards:addTransaction", "guards:Validate"], "C06": ["guards:Update"]}
+                  "C11": ["guards:addTransaction", "guards:Validate"], "C06": ["guards:Update"], "C07": ["guards:UpdateUtxos"],
+                  "C02": ["guards:UpdateUtxos"]}
 ARITH_WHAT = {"C08": "(*Blockchain).Blocks", "C14": "(*Blockchain).Blocks",
               "C01": "(*UtxosRegistry).CalculateFee and the reward guard of (*Blockchain).verifyBlock",
               "C04": "the date guards of (*Blockchain).AddBlock and (*Blockchain).verifyBlock",
               "C11": "the date guards of (*TransactionsPool).addTransaction and (*TransactionsPool).Validate",
-              "C06": "the fork-choice conditions of (*Blockchain).Update"}
+              "C06": "the fork-choice conditions of (*Blockchain).Update",
+              "C07": "the conditions of (*UtxosRegistry).UpdateUtxos over counts, values and income flags",
+              "C02": "the conditions of (*UtxosRegistry).UpdateUtxos over counts, values and income flags"}
 ARITH_SRC = {"C08": ["verification/blockchain.go"], "C14": ["verification/blockchain.go"],
              "C01": ["verification/utxos_registry.go", "verification/blockchain.go"], "C04": ["verification/blockchain.go"],
-             "C11": ["validation/transactions_pool.go"], "C06": ["verification/blockchain.go"]}
+             "C11": ["validation/transactions_pool.go"], "C06": ["verification/blockchain.go"],
+             "C07": ["verification/utxos_registry.go"], "C02": ["verification/utxos_registry.go"]}
 
 
 def arith_tie(prop):
@@ -428,7 +435,7 @@ def arith_tie(prop):
             obligations.append({"name": f"theorems of {mod} over the arithmetic of {what} regenerated from the source", "ok": allok})
             if not allok:
                 failures.append(failure(
-                    "proof", f"{prop}/theorem/arith/" + {"C01": "Gen.fee", "C04": "Gen.guards", "C11": "Gen.guards", "C06": "Gen.updateGuards"}.get(prop, "Gen.blocksRange"),
+                    "proof", f"{prop}/theorem/arith/" + {"C01": "Gen.fee", "C04": "Gen.guards", "C11": "Gen.guards", "C06": "Gen.updateGuards", "C07": "Gen.updateUtxosGuards", "C02": "Gen.updateUtxosGuards"}.get(prop, "Gen.blocksRange"),
                     f"the theorems of {mod} no longer check over the arithmetic of {what} regenerated from the current "
                     f"{', '.join(x.name for x in srcs)}:\n" + text[-2600:] + "\n" + (blog[-1200:] if not okb else ""),
                     {"no_longer_checks": ARITH_THEOREMS[prop], "generated": text, "build_log": blog[-3000:] if not okb else ""}, False))
